@@ -414,6 +414,22 @@ func init() {
 		} else {
 			fail("func (*File) DeletePicture")
 		}
+		// the cell setters and the calculation chain
+		sstFactsLate := func(fn string, pats ...string) {
+			fd := funcDecl("File", fn)
+			if fd == nil {
+				fail("func (*File) %s", fn)
+				return
+			}
+			body := src(fd.Body)
+			for _, p := range pats {
+				if !strings.Contains(body, p) {
+					fail("%s: skeleton `%s`", fn, p)
+				}
+			}
+		}
+		sstFactsLate("removeFormula", "if c.F != nil && c.Vm == nil {", "f.deleteCalcChain(sheetID, c.R)", "c.F = nil")
+		sstFactsLate("SetCellFormula", "if formula == \"\" {", "return f.deleteCalcChain(f.getSheetID(sheet), cell)")
 		// shared strings: how the index of a new item is computed
 		sstFacts := func(fn string, pats ...string) {
 			fd := funcDecl("File", fn)
